@@ -115,7 +115,9 @@ class TokenMatcher:
 
         dialect_name = match.group(1)
         self._set_token_matched(token, "Language", dialect_name)
-        self._change_dialect(dialect_name, token.location)
+        # the error for an unknown language keeps its own copy of the location:
+        # the token's location is updated again when the line is matched as a comment
+        self._change_dialect(dialect_name, dict(token.location))
         return True
 
     def match_TagLine(self, token: Token) -> bool:
